@@ -26,10 +26,14 @@ def suffix_all_kinds(s, ro, cur, rng, ids, pool, hidx):
     state = Abs(cur)
     kinds = list(B.ALL_KINDS)
     rng.shuffle(kinds)
+    # every third history refuses under the interpreter's "-W error" treatment of
+    # DeprecationWarning: the refusal must still be MosCompletedMergeError
+    werr = DeprecationWarning if hidx % 3 == 0 else None
     for k, kind in enumerate(kinds):
         msg = gen.rand_message(rng, state, kind, 500 + k, ids, pool=pool)
-        ro, err, v, ev = s.step(ro, msg, {'history': hidx, 'phase': 'after-roDelete'})
-        s.note_sig(('after-end', kind, type(err).__name__ if err else 'accepted'))
+        ro, err, v, ev = s.step(ro, msg, {'history': hidx, 'phase': 'after-roDelete',
+                                          'DeprecationWarning-as-error': werr is not None}, error_on=werr)
+        s.note_sig(('after-end', kind, type(err).__name__ if err else 'accepted', werr is not None))
     # a second roCreate too
     msg = gen.rand_ro(rng, n_stories=1, pool=pool, message_id=900)
     ro, err, v, ev = s.step(ro, msg, {'history': hidx, 'phase': 'after-roDelete'})
